@@ -586,12 +586,19 @@ Expr={expr}"""
         return _concat, ()
 
     @staticmethod
-    def _postpersist(futures, meta, divisions, name):
+    def _postpersist(futures, meta, divisions, name, rename=None):
+        if rename:
+            # dask.graph_manipulation hands over a whole graph in which the
+            # (only) name of the collection has been replaced
+            (out_name,) = rename.values()
+            keys = [(out_name, i) for i in range(len(divisions) - 1)]
+        else:
+            keys = sorted(futures)
         return from_graph(
             futures,
             meta,
             divisions,
-            sorted(futures),
+            keys,
             name,
         )
 
